@@ -78,8 +78,12 @@ func drawTasks(c *simkit.Choice, max int) int {
 func concFinish(s *simkit.Sim, r *simkit.Rec, site string) bool {
 	r.FromSim(s)
 	r.Nontrivial = s.Preempts > 0 || s.Switches > int64(len(s.Tasks()))
+	r.Sig(s.TraceHash()[0]) // the interleaving itself is part of the run's identity
 	if s.Preempts > 0 {
 		r.FaultN(idx(concFaults, "preempt"), int(s.Preempts))
+	}
+	if s.LockWaits > 0 {
+		r.FaultN(idx(concFaults, "lock-contended"), int(s.LockWaits))
 	}
 	nt := len(s.Tasks())
 	if nt >= 8 {
@@ -864,6 +868,7 @@ func runConcConn(c *simkit.Choice, r *simkit.Rec) {
 	r.Detail = map[string]interface{}{"program": "conc-conn", "suite": fmt.Sprintf("%04x", suite), "writers": nw, "readers": nr, "closer": closer, "close_after_yields": closeAfter, "policy": fmt.Sprintf("%+v", pol), "preempts": s.Preempts, "ops": nhist}
 	r.FromSim(s)
 	r.Nontrivial = true
+	r.Sig(s.TraceHash()[0])
 	if s.Preempts > 0 {
 		r.FaultN(idx(concFaults, "preempt"), int(s.Preempts))
 	}
